@@ -1733,49 +1733,49 @@ impl<'de, 'e> de::Deserializer<'de> for YamlDeserializer<'de, 'e> {
             // Internal wrapper types use `__yaml_*` names (see `__yaml_rc_anchor`, etc.).
             "__yaml_spanned" => spanned_deser::deserialize_yaml_spanned(self, visitor),
             "__yaml_rc_anchor" => {
-                let anchor = self.peek_anchor_id()?;
+                let anchor = anchor_store::own_context_id(self.peek_anchor_id()?);
                 anchor_store::with_anchor_context(AnchorKind::Rc, anchor, || {
                     visitor.visit_newtype_struct(self)
                 })
             }
             "__yaml_arc_anchor" => {
-                let anchor = self.peek_anchor_id()?;
+                let anchor = anchor_store::own_context_id(self.peek_anchor_id()?);
                 anchor_store::with_anchor_context(AnchorKind::Arc, anchor, || {
                     visitor.visit_newtype_struct(self)
                 })
             }
             "__yaml_rc_recursive" => {
-                let anchor = self.peek_anchor_id()?;
+                let anchor = anchor_store::own_context_id(self.peek_anchor_id()?);
                 anchor_store::with_anchor_context(AnchorKind::RcRecursive, anchor, || {
                     visitor.visit_newtype_struct(self)
                 })
             }
             "__yaml_arc_recursive" => {
-                let anchor = self.peek_anchor_id()?;
+                let anchor = anchor_store::own_context_id(self.peek_anchor_id()?);
                 anchor_store::with_anchor_context(AnchorKind::ArcRecursive, anchor, || {
                     visitor.visit_newtype_struct(self)
                 })
             }
             "__yaml_rc_weak_anchor" => {
-                let anchor = anchor_store::weak_context_id(self.peek_anchor_id()?);
+                let anchor = anchor_store::own_context_id(self.peek_anchor_id()?);
                 anchor_store::with_anchor_context(AnchorKind::Rc, anchor, || {
                     visitor.visit_newtype_struct(self)
                 })
             }
             "__yaml_arc_weak_anchor" => {
-                let anchor = anchor_store::weak_context_id(self.peek_anchor_id()?);
+                let anchor = anchor_store::own_context_id(self.peek_anchor_id()?);
                 anchor_store::with_anchor_context(AnchorKind::Arc, anchor, || {
                     visitor.visit_newtype_struct(self)
                 })
             }
             "__yaml_rc_recursion" => {
-                let anchor = anchor_store::weak_context_id(self.peek_anchor_id()?);
+                let anchor = anchor_store::own_context_id(self.peek_anchor_id()?);
                 anchor_store::with_anchor_context(AnchorKind::RcRecursive, anchor, || {
                     visitor.visit_newtype_struct(self)
                 })
             }
             "__yaml_arc_recursion" => {
-                let anchor = anchor_store::weak_context_id(self.peek_anchor_id()?);
+                let anchor = anchor_store::own_context_id(self.peek_anchor_id()?);
                 anchor_store::with_anchor_context(AnchorKind::ArcRecursive, anchor, || {
                     visitor.visit_newtype_struct(self)
                 })
